@@ -1,8 +1,10 @@
 CONSTANTS
   Alphabet <- L0
   Core <- L0Core
+  Mid <- L0Core
   MaxAll = 3
-  MaxCore = 3
+  MaxMid = 4
+  MaxCore = 4
   Wrappers <- NoWrap
   MaxWrap = 0
   MaxDeep = 0
